@@ -269,4 +269,10 @@ theorem C13_unpad_sound (p v : Bytes) (bs : Nat) (h : rfc5652Unpad p bs = some v
 example : (raw2Octet (List.replicate 200 7)).take 3 = [0x04, 0x81, 0xC8] ∧ octet2Raw (raw2Octet (List.replicate 200 7)) = List.replicate 200 7 ∧
     ecdhPubData (0x04 :: List.replicate 64 1) = 0x04 :: 0x41 :: 0x04 :: List.replicate 64 1 ∧ rfc5652Unpad [1, 2, 2, 2] 4 = some [1, 2] ∧ rfc5652Unpad [1, 2, 3, 2] 4 = none := by decide +kernel
 
+/-- **`ByteString::bits`** (what CKA_VALUE_BITS of a derived DH key and the key-size checks are computed with) is the bit length of the big-endian number the bytes spell:
+    the value is below 2^bits, and at least 2^(bits-1) unless it is zero - for every byte string, leading zero bytes included -/
+theorem C13_bits_is_bit_length (b : Bytes) : Shm.Store.beVal b < 2 ^ bits b ∧ (bits b ≠ 0 → 2 ^ (bits b - 1) ≤ Shm.Store.beVal b) := bits_spec b
+
+example : bits [0x00, 0x01, 0xff] = 9 ∧ bits [0x00, 0x00] = 0 ∧ bits [0x80] = 8 := by decide
+
 end Shm.Pure
